@@ -29,6 +29,6 @@ for k in sorted(os.listdir(src)):
     if NEUTRAL:
         meta["expected"] = "OK (the property still holds; an alarm here is a false alarm or, at best, no-failing-input-found)"
     meta["origin"] = ("independent sub-agent given only the property text and a scratch worktree of /repo"
-                      + (" (round 2: asked for cooperating edits, call sequences, Python subtleties, rare branches)" if rnd else ""))
+                      + (f" (round {rnd[1:]}: asked for cooperating edits, call sequences, Python subtleties, rare branches; told what earlier rounds used)" if rnd else ""))
     json.dump(meta, open(mp, "w"), indent=1)
     print("imported", dst)
